@@ -28,11 +28,14 @@ def depth_coord(name, dim, K, down, deepfirst, attr, bounds, same_name_dim=False
             "bounds": [[v - 2, v + 3] for v in vals] if bounds else []}
 
 
-def make_world(conv: str, rng: random.Random, *, two: bool, K: int, twin: bool = False, sediment: bool | None = None) -> dict:
+def make_world(conv: str, rng: random.Random, *, two: bool, K: int, twin: bool = False, sediment: bool | None = None,
+               twin_at: int | None = None, grid: tuple | None = None) -> dict:
     if conv == "ugrid":
         w = GW.mesh_world(W.mesh_from_squares([["Q", "A"], ["B", "N"]]), enc={"base": 0, "fill": "intfill"})
     elif conv == "cf1d":
         w = GW.structured_world(conv, 2, 3, bounds=True)
+    elif grid:
+        w = GW.structured_world(conv, grid[0], grid[1], shape="skew", **({"bounds": True} if conv in ("cf2d", "shoc_simple") else {}))
     else:
         w = GW.structured_world(conv, 2, 2, shape="skew")
     names = DEPTH_NAMES.get(conv, GENERIC_NAMES)
@@ -116,6 +119,9 @@ def make_world(conv: str, rng: random.Random, *, two: bool, K: int, twin: bool =
     add("eta", ["t"] + g)
     add("botz", list(g))
     w["depthvars"] = variables
+    if twin and twin_at is not None and depths[-1]["name"] == "z_twin":
+        # the twin listed right after the coordinate it shares a dimension with, BEFORE the coordinates of other dimensions
+        depths.insert(twin_at, depths.pop())
     w["depths"] = depths
     return w
 
@@ -303,6 +309,28 @@ def _cases(tier: str, seed: int, *, kinds=("norm", "floor")) -> list[dict]:
                 ev += [{"a": "Normalize", "pd": "yes", "d2s": "no", "via": "accessor"}]
             if "floor" in kinds:
                 ev += [{"a": "OceanFloor", "via": "accessor"}]
+            out.append({"src": "gen", "world": w, "events": ev})
+    # a single row / a single column of cells (a dimension of length one), SHOC depth coordinates found by name only
+    for conv, grid in (("shoc_simple", (1, 3)), ("shoc_simple", (3, 1)), ("shoc_standard", (1, 2)), ("cf2d", (1, 3))):
+        w = make_world(conv, rng, two=True, K=3, grid=grid, sediment=False)
+        if conv in DEPTH_NAMES:
+            for dc in w["depths"]:
+                dc["positive"] = ""
+        ev = [{"a": "Touch", "via": "accessor"}]
+        if "norm" in kinds:
+            ev += [{"a": "Normalize", "pd": "yes", "d2s": "no", "via": "accessor"}, {"a": "Normalize", "pd": "no", "d2s": "yes", "via": "accessor"}]
+        if "floor" in kinds:
+            ev += [{"a": "OceanFloor", "via": "accessor"}]
+        out.append({"src": "gen", "world": w, "events": ev})
+    # three depth coordinates, two of them on one dimension and listed before the third
+    for conv in [c for c in W.ALL_CONVS if c not in DEPTH_NAMES]:
+        for rep in range(1 if tier == "quick" else 3):
+            w = make_world(conv, rng, two=True, K=rng.randint(2, 4), twin=True, twin_at=1)
+            ev = [{"a": "Touch", "via": "accessor"}]
+            if "norm" in kinds:
+                ev += [{"a": "Normalize", "pd": "yes", "d2s": "no", "via": "accessor" if rep % 2 == 0 else "function"}]
+            if "floor" in kinds:
+                ev += [{"a": "OceanFloor", "via": "function" if rep % 2 == 0 else "accessor"}, {"a": "OceanFloor", "via": "accessor"}]
             out.append({"src": "gen", "world": w, "events": ev})
     if "norm" in kinds:
         # two coordinates on one depth dimension, through the accessor and through the function
